@@ -89,9 +89,6 @@ pub(crate) fn read_mqtt_u32_varint<E>(
     for shift in [0, 7, 14, 21] {
         let byte = read()?;
         let part = (byte & 0x7F) as u32;
-        if shift == 21 && part > 0x0F {
-            return Err(invalid());
-        }
 
         value |= part << shift;
         if (byte & 0x80) == 0 {
